@@ -18,7 +18,19 @@ listed in REQUIRED that is skipped makes the translation fail loudly.
 import ast
 import os
 
-MODULES = ['suit', 'pair', 'vul', 'player', 'bid', 'card', 'contract', 'score', 'bidding_phase', 'playing_phase', 'hands']
+MODULES = ['suit', 'pair', 'vul', 'player', 'bid', 'card', 'contract', 'score', 'bidding_phase', 'playing_phase', 'hands',
+           'data_handler/abstract_classes', 'data_handler/pbn_handler/writer', 'data_handler/json_handler/writer',
+           'data_handler/json_handler/parser']
+
+# a file object, as far as the JSON writer / parser use one: `write` appends a chunk, `json.load` reads the chunks joined
+PRELUDE = '''
+class _File:
+    def __init__(self):
+        self.buf = []
+
+    def write(self, s):
+        self.buf.append(s)
+'''
 
 # functions the theorems are about: (class or '', name)
 REQUIRED = [
@@ -44,6 +56,10 @@ REQUIRED = [
     ('ObservedPlayingPhase', 'current_available_cards_in_dummy_hand'),
     ('Hands', '__init__'), ('Hands', '__getitem__'), ('Hands', 'to_pbn'), ('Hands', '_convert_hand_to_pbn'),
     ('Hands', 'to_binary'), ('Hands', 'to_dict'), ('Hands', 'convert_binary'),
+    ('', 'convert_deal'), ('JsonWriter', 'open'), ('JsonWriter', 'close'), ('JsonWriter', '_write_content'),
+    ('JsonLogWriter', 'write'), ('JsonBoardSettingWriter', 'write'),
+    ('', 'hands_parser'), ('', 'convert_board_setting'), ('', 'convert_board_log'),
+    ('JsonParser', 'parse_board_settings'), ('JsonParser', 'parse_board_logs'),
 ]
 
 K = {'value': 1, 'name': 2, '__str__': 3, '__int__': 4, '__lt__': 5, '__le__': 6, '__gt__': 7, '__ge__': 8,
@@ -73,6 +89,8 @@ class ClassInfo:
         self.members = []       # (name, int)
         self.fields = []        # (name, default ast or None)
         self.methods = {}       # name -> (FunctionDef, kind) kind in instance|property|classmethod|staticmethod
+        self.attrs = []         # constant class attributes (name, python value)
+        self.str_values = []    # (ordinal, text) for an Enum with string values
 
 
 class Translator:
@@ -87,10 +105,14 @@ class Translator:
         self.used_names = set()
 
     # ------------------------------------------------------------------ collection
+    def source(self, m):
+        if m == '_prelude':
+            return PRELUDE
+        return open(os.path.join(self.repo, 'bridge_env', m + '.py'), encoding='utf-8').read()
+
     def collect(self):
-        for m in MODULES:
-            path = os.path.join(self.repo, 'bridge_env', m + '.py')
-            tree = ast.parse(open(path, encoding='utf-8').read())
+        for m in ['_prelude'] + MODULES:
+            tree = ast.parse(self.source(m))
             for node in tree.body:
                 if isinstance(node, ast.ClassDef):
                     self.collect_class(node, m)
@@ -128,6 +150,8 @@ class Translator:
         for b in node.bases:
             if isinstance(b, ast.Name) and b.id == 'Enum':
                 ci.is_enum = True
+            elif isinstance(b, ast.Name) and b.id == 'NamedTuple':
+                ci.is_dataclass = True            # positional fields in order, defaults, attribute access: as a dataclass
             elif isinstance(b, ast.Name):
                 ci.base = b.id
         for d in node.decorator_list:
@@ -153,11 +177,24 @@ class Translator:
                     v = self.literal(st.value)
                 except Skip:
                     raise TranslationError(f'Enum member {node.name}.{st.targets[0].id} is not an integer literal')
+                if type(v) is str:
+                    # an Enum with STRING values: each member is a constant instance with the attributes `value` and `name`
+                    ci.str_values.append((st.targets[0].id, v))
+                    continue
                 if type(v) is not int:
-                    raise TranslationError(f'Enum member {node.name}.{st.targets[0].id} is not an integer literal')
+                    raise TranslationError(f'Enum member {node.name}.{st.targets[0].id} is not an integer / string literal')
                 ci.members.append((st.targets[0].id, v))
             elif isinstance(st, ast.AnnAssign) and ci.is_dataclass and isinstance(st.target, ast.Name):
                 ci.fields.append((st.target.id, st.value))
+            elif isinstance(st, ast.Assign) and not ci.is_enum and len(st.targets) == 1 and isinstance(st.targets[0], ast.Name):
+                try:
+                    ci.attrs.append((st.targets[0].id, self.literal(st.value)))
+                except Skip:
+                    pass
+        if ci.str_values:
+            if ci.members:
+                raise TranslationError(f'Enum {node.name} mixes integer and string values')
+            ci.is_enum = False
         self.classes[node.name] = ci
 
     # ------------------------------------------------------------------ identifiers
@@ -192,6 +229,10 @@ class Translator:
 
     def member_const(self, cname, mname):
         ci = self.classes.get(cname)
+        if ci is not None and ci.str_values:
+            for n, v in ci.str_values:
+                if n == mname:
+                    return (f'(.const (.obj {self.ident(cname)} [(K.value, {self.val(v)}), (K.name, {self.val(n)})]))')
         if ci is not None and ci.is_enum:
             for n, v in ci.members:
                 if n == mname:
@@ -386,22 +427,42 @@ class Translator:
                 raise Skip('dict unpacking')
             return '(.dictOf [' + ', '.join(f'({self.expr(k)}, {self.expr(v)})' for k, v in zip(node.keys, node.values)) + '])'
         if isinstance(node, (ast.ListComp, ast.SetComp)):
-            if len(node.generators) != 1 or node.generators[0].is_async or len(node.generators[0].ifs) > 1 \
-                    or not isinstance(node.generators[0].target, ast.Name):
+            if len(node.generators) != 1 or node.generators[0].is_async or len(node.generators[0].ifs) > 1:
                 raise Skip('comprehension shape')
             g = node.generators[0]
             it = self.expr(g.iter)
-            self.locals.add(g.target.id)
-            cond = f'(some {self.expr(g.ifs[0])})' if g.ifs else 'none'
-            body = self.expr(node.elt)
-            return f'(.comp {self.ident(g.target.id)} {it} {cond} {body})'
+            if isinstance(g.target, ast.Name):
+                self.locals.add(g.target.id)
+                cond = f'(some {self.expr(g.ifs[0])})' if g.ifs else 'none'
+                body = self.expr(node.elt)
+                out = f'(.comp {self.ident(g.target.id)} {it} {cond} {body})'
+                plain = isinstance(node.elt, ast.Name) and node.elt.id == g.target.id
+            elif isinstance(g.target, ast.Tuple) and all(isinstance(e, ast.Name) for e in g.target.elts):
+                for e in g.target.elts:
+                    self.locals.add(e.id)
+                cond = f'(some {self.expr(g.ifs[0])})' if g.ifs else 'none'
+                body = self.expr(node.elt)
+                out = f'(.compT {self.elist([self.ident(e.id) for e in g.target.elts])} {it} {cond} {body})'
+                plain = False
+            else:
+                raise Skip('comprehension target')
+            if isinstance(node, ast.SetComp) and not plain:
+                out = f'(.builtin .set [{out}])'          # a set comprehension that maps its elements may merge some
+            return out
         if isinstance(node, ast.DictComp):
-            if len(node.generators) != 1 or node.generators[0].ifs or not isinstance(node.generators[0].target, ast.Name):
+            if len(node.generators) != 1 or node.generators[0].ifs:
                 raise Skip('dict comprehension shape')
             g = node.generators[0]
             it = self.expr(g.iter)
-            self.locals.add(g.target.id)
-            return f'(.dictComp {self.ident(g.target.id)} {it} {self.expr(node.key)} {self.expr(node.value)})'
+            if isinstance(g.target, ast.Name):
+                self.locals.add(g.target.id)
+                return f'(.dictComp {self.ident(g.target.id)} {it} {self.expr(node.key)} {self.expr(node.value)})'
+            if isinstance(g.target, ast.Tuple) and all(isinstance(e, ast.Name) for e in g.target.elts):
+                for e in g.target.elts:
+                    self.locals.add(e.id)
+                return (f'(.dictCompT {self.elist([self.ident(e.id) for e in g.target.elts])} {it} '
+                        f'{self.expr(node.key)} {self.expr(node.value)})')
+            raise Skip('dict comprehension target')
         if isinstance(node, ast.Call):
             return self.call_expr(node)
         raise Skip(f'expression {type(node).__name__}')
@@ -458,6 +519,15 @@ class Translator:
                 return f'(.call {self.ident(f.id)} {self.elist(args)})'
             raise Skip(f'call of {f.id}')
         if isinstance(f, ast.Attribute):
+            if isinstance(f.value, ast.Name) and f.value.id == 'json' and f.attr == 'dumps' and len(node.args) == 1 \
+                    and all(k.arg == 'indent' and isinstance(k.value, ast.Constant) and k.value.value is None
+                            for k in node.keywords):
+                return f'(.builtin .jsonDumps [{self.expr(node.args[0])}])'
+            if isinstance(f.value, ast.Name) and f.value.id == 'json' and f.attr == 'load' and len(node.args) == 1 \
+                    and not node.keywords:
+                # the text of the file object = its chunks joined (see PRELUDE)
+                return ('(.builtin .jsonLoads [(.builtin .join [(.const (.str [])), (.attr ' + self.expr(node.args[0]) +
+                        f' {self.ident("buf")})])])')
             # np.ones(n)
             if isinstance(f.value, ast.Name) and f.value.id == 'np' and f.attr == 'ones' and len(node.args) >= 1 \
                     and all(k.arg == 'dtype' for k in node.keywords) and len(node.args) <= 2:
@@ -766,11 +836,13 @@ class Translator:
     GROUPS = [('Base', ['suit', 'pair', 'vul', 'player', 'bid', 'card', 'contract', 'score'], 100),
               ('Auction', ['bidding_phase'], 2000),
               ('Play', ['playing_phase'], 3000),
-              ('Hands', ['hands'], 4000)]
+              ('Hands', ['hands'], 4000),
+              ('Json', ['_prelude', 'data_handler/abstract_classes', 'data_handler/pbn_handler/writer',
+                        'data_handler/json_handler/writer', 'data_handler/json_handler/parser'], 5000)]
 
     def names_of(self, module):
         names = set()
-        tree = ast.parse(open(os.path.join(self.repo, 'bridge_env', module + '.py'), encoding='utf-8').read())
+        tree = ast.parse(self.source(module))
         for n in ast.walk(tree):
             if isinstance(n, ast.Name):
                 names.add(n.id)
@@ -802,6 +874,7 @@ class Translator:
                     group_of_name[n] = gname
                     nxt += 1
         group_of_module = {m: g for g, mods, _ in self.GROUPS for m in mods}
+        group_of_module.setdefault('_prelude', 'Json')
         defs = {g: [] for g, _, _ in self.GROUPS}
         funcs = []
         methods = {}
@@ -809,7 +882,7 @@ class Translator:
         translated = set()
         func_module = {}
         for m in MODULES:
-            tree = ast.parse(open(os.path.join(self.repo, 'bridge_env', m + '.py'), encoding='utf-8').read())
+            tree = ast.parse(self.source(m))
             for node in tree.body:
                 if isinstance(node, ast.FunctionDef):
                     func_module[node.name] = m
@@ -835,6 +908,18 @@ class Translator:
                 defs[g].append(f'def {lname} : FuncDef := {body}\n')
                 methods.setdefault(ci.name, []).append(f'({self.ident(mname)}, {lname})')
                 translated.add((ci.name, mname))
+        # a constant class attribute (`TAG = 'logs'`) is read through an instance (`self.TAG`): a property returning it
+        for ci in self.classes.values():
+            g = group_of_module[ci.module]
+            for a, v in ci.attrs:
+                if a in ci.methods:
+                    continue
+                lname = f'm_{ci.name}_{a}'
+                try:
+                    defs[g].append(f'def {lname} : FuncDef := {{\n  params := [K.self],\n  defaults := [],\n  body := [(.ret (.const {self.val(v)}))] }}\n')
+                except Skip:
+                    continue
+                methods.setdefault(ci.name, []).append(f'({self.ident(a)}, {lname})')
         self.skipped = [x for g, _, _ in self.GROUPS for x in skipped[g]]
         missing = [r for r in REQUIRED if r not in translated]
         if missing:
@@ -914,7 +999,7 @@ open Bridge.Py
 '''
 
 
-FILES = ['PyCoreBase.lean', 'PyCoreAuction.lean', 'PyCorePlay.lean', 'PyCoreHands.lean', 'PyCore.lean']
+FILES = ['PyCoreBase.lean', 'PyCoreAuction.lean', 'PyCorePlay.lean', 'PyCoreHands.lean', 'PyCoreJson.lean', 'PyCore.lean']
 
 
 def generate(repo):
